@@ -1,6 +1,6 @@
 """Property -> rules mapping, level texts, assumptions."""
 from . import entries
-from .rules import limbs, total_rule, unimpl
+from .rules import canon, facade, limbs, structural, total_rule, unimpl
 
 COMMON_ASSUMPTIONS = [
     "rustc's type checker, trait resolution, MIR construction and constant evaluation are correct "
@@ -58,7 +58,40 @@ def rules_C04(ctx):
     reps = []
     for cfg in ctx.build_configs(quick=("all", "all-norand09"), thorough=("all", "all-norand09", "default", "nodefault")):
         reps.append(limbs.run(ctx, cfg) if cfg.startswith("all") else limbs.run(ctx, cfg, floors=False))
-    return merge_same_rule(reps)
+    out = merge_same_rule(reps)
+    out.append(canon_for(ctx))
+    out.append(structural.mutref(ctx))
+    out.append(structural.wf(ctx))
+    out.append(structural.eqord(ctx))
+    out.append(structural.maskkind(ctx))
+    return out
+
+
+def canon_for(ctx, files=None):
+    scope = None
+    if files:
+        scope = (lambda b: b["file"] in files)
+    return canon.run(ctx, "all", scope=scope)
+
+
+def rules_with_canon(pid, files, extra=None):
+    def f(ctx):
+        reps = total_for(pid, ctx) + [canon_for(ctx, files)]
+        if extra:
+            reps += extra(ctx)
+        return reps
+    return f
+
+
+def rules_C07(ctx):
+    return total_for("C07", ctx) + [structural.maskkind(ctx)]
+
+
+def rules_C20(ctx):
+    reps = []
+    for cfg in ctx.build_configs(quick=("all",), thorough=("all", "all-norand09", "default")):
+        reps.append(facade.run(ctx, cfg))
+    return merge_same_rule(reps) + total_for("C20", ctx, own_only=True)
 
 
 def rules_total_only(pid, own_only=False):
@@ -82,10 +115,10 @@ def P(pid, clauses, not_decided_short, rules, not_decided):
 
 PROPS = {
     "C01": P("C01", "no panic site is reachable from any add/sub/neg form or operator (R-TOTAL)",
-             "that the carry chain computes the sum", rules_total_only("C01"),
+             "that the carry chain computes the sum", rules_with_canon("C01", {"src/add.rs"}),
              ["that the limb-wise carry chain computes the sum/difference", "abs_diff's value"]),
     "C02": P("C02", "no panic site is reachable from any mul form, inv_ring, Product (R-TOTAL)",
-             "products, Hensel lifting", rules_total_only("C02"), ["products", "trimming bookkeeping in addmul"]),
+             "products, Hensel lifting", rules_with_canon("C02", {"src/mul.rs"}), ["products", "trimming bookkeeping in addmul"]),
     "C03": P("C03", "checked_div/checked_rem/checked_next_multiple_of reach the zero-divisor panic only behind a "
              "dominating non-zero test (R-TOTAL, D-zero); no todo!/unimplemented! is reachable from a public item "
              "(R-UNIMPL)", "the Euclidean contract; that no non-zero divisor panics inside the Knuth kernels",
@@ -96,24 +129,24 @@ PROPS = {
               "value claims of the arithmetic kernels (quotient <= numerator, remainder < divisor)"]),
     "C05": P("C05", "no shift/rotate form or operator overload reaches a panic site; every limb index in "
              "overflowing_shl/shr is in range by the `limbs >= LIMBS` guard (R-TOTAL)",
-             "bit positions, rotation arithmetic, sign fill", rules_total_only("C05"),
+             "bit positions, rotation arithmetic, sign fill", rules_with_canon("C05", {"src/bits.rs"}),
              ["bit positions", "rotation arithmetic", "sign fill"]),
     "C06": P("C06", "bit/set_bit/checked_byte/count functions reach no panic site; index guards dominate the limb "
-             "accesses (R-TOTAL)", "every counting function's value", rules_total_only("C06"),
+             "accesses (R-TOTAL)", "every counting function's value", rules_with_canon("C06", {"src/bits.rs"}),
              ["values of the counting functions", "most_significant_bits"]),
     "C07": P("C07", "every TryFrom/wrapping/saturating conversion in either direction and the *_from_limbs_slice "
              "constructors reach no undischarged panic site: each asserting from_limbs is behind a top-limb bound "
-             "(R-TOTAL, D-mask)", "that wrapped payloads equal v mod 2^BITS", rules_total_only("C07"),
+             "(R-TOTAL, D-mask)", "that wrapped payloads equal v mod 2^BITS", rules_C07,
              ["wrapped payload values"]),
     "C08": P("C08", "try_from_{be,le}_slice, checked_copy_* and the slice/vec byte forms reach no undischarged panic "
              "site in any configuration, in particular the asserting from_limbs only behind a top-limb check (R-TOTAL)",
-             "digit order, round trip", rules_total_only("C08"), ["digit order inside the loops", "round trip"]),
+             "digit order, round trip", rules_with_canon("C08", {"src/bytes.rs"}), ["digit order inside the loops", "round trip"]),
     "C09": P("C09", "from_str/from_str_radix/from_base_* and the formatters reach no undischarged panic site (R-TOTAL)",
              "Horner/spigot arithmetic, padding output", rules_total_only("C09"),
              ["Horner/spigot arithmetic", "padding and alignment output"]),
     "C10": P("C10", "reduce_mod/add_mod/mul_mod/pow_mod/inv_mod reach the zero-divisor panic only behind a dominating "
              "non-zero test of the modulus (R-TOTAL, D-zero)", "residues, pow_mod, inv_mod cofactor sign",
-             rules_total_only("C10"), ["residues", "pow_mod", "inv_mod cofactor sign"]),
+             rules_with_canon("C10", {"src/modular.rs"}), ["residues", "pow_mod", "inv_mod cofactor sign"]),
     "C13": P("C13", "checked_log*/checked_pow and the pow family reach no undischarged panic site at any width, "
              "including BITS < 4 where the constants 2 and 10 do not fit (R-TOTAL, D-lit, return-discriminant "
              "summaries)", "values, termination of root, float estimates", rules_total_only("C13"),
@@ -132,7 +165,7 @@ PROPS = {
     "C20": P("C20", "no facade function (Bits wrapper, num-traits, num-integer, subtle, zeroize) contains a panic "
              "source of its own beyond the reviewed rows where its signature cannot express the failure (R-TOTAL, "
              "own sites only)", "that the inherent method is right; constant-time-ness",
-             rules_total_only("C20", own_only=True), ["that the inherent methods are right", "constant-time-ness"]),
+             rules_C20, ["that the inherent methods are right", "constant-time-ness"]),
 }
 
 # properties not yet claimed in this round, with the reason shown in MANIFEST.not_applicable
